@@ -28,7 +28,7 @@ func (c08) ID() string { return "C08" }
 func (c08) Meta() Meta {
 	return Meta{
 		Level:       "exploration",
-		Rule:        "soundness + round-trip monitor: (a) on fixtures and generated reference-heavy configurations every cursor inside an attribute value of the base files (all expression forms the generator writes: operators, templates, conditionals, for, index, function arguments, parentheses, collection literals) gets CompletionAtPos; every reference candidate must be the address (absolute, or block-local with the cursor inside its visible-from range and self.* only where enabled) of a collected declaration, must not be a declaration that lies inside the attribute being edited, and with a direct Reference scope constraint must carry (or nest) that scope; every function candidate must be a known function of THIS path (description and parameter list of this path's signature - the fixture's child module and root declare functions of the same names with different signatures) whose return type converts to the expected type when that type is known; (b) 'typing replays' rewrite the value of seeded attributes to empty and to prefixes of offered candidates: every candidate must start with the typed prefix (whether the candidate the prefix was cut from is offered again is counted only: the property states soundness); for Keyword / LiteralValue / bool LiteralType constraints (and OneOf of them) the candidates at the empty value must be exactly the admitted words; (c) accepting a reference candidate whose declaration itself fits, re-collecting targets and origins and asking go-to-definition at the inserted text must report that declaration. distinct non-trivial = (expression form at the cursor, constraint kind, candidate kind) with >= 1 candidate.",
+		Rule:        "soundness + round-trip monitor: (a) on fixtures and generated reference-heavy configurations every cursor inside an attribute value of the base files (all expression forms the generator writes: operators, templates, conditionals, for, index, function arguments, parentheses, collection literals) gets CompletionAtPos; every reference candidate must be the address (absolute, or block-local with the cursor inside its visible-from range and self.* only where enabled) of a collected declaration, must not be a declaration that lies inside the attribute being edited, with a direct Reference scope constraint must carry (or nest) that scope, and where the expected type is known (any-expression at the top of an emptied / prefixed value) one of its declarations or something nested below must convert to it; every function candidate must be a known function of THIS path (description and parameter list of this path's signature - the fixture's child module and root declare functions of the same names with different signatures) whose return type converts to the expected type when that type is known; (b) 'typing replays' rewrite the value of seeded attributes to empty and to prefixes of offered candidates: every candidate must start with the typed prefix (whether the candidate the prefix was cut from is offered again is counted only: the property states soundness); for Keyword / LiteralValue / bool LiteralType constraints (and OneOf of them) the candidates at the empty value must be exactly the admitted words; (c) accepting a reference candidate whose declaration itself fits, re-collecting targets and origins and asking go-to-definition at the inserted text must report that declaration. distinct non-trivial = (expression form at the cursor, constraint kind, candidate kind) with >= 1 candidate.",
 		Assumptions: []string{"don't-care: the order of candidates of different producers; truncated lists (soundness only)", "the expected type of nested positions (inside operators, calls, collections) is not modelled: there only address/visibility/function-known soundness is checked"},
 		Floor:       map[string]int{"quick": 40, "thorough": 100},
 		CaseBudget:  60,
@@ -290,6 +290,18 @@ func (p c08) checkText(unit int, rc Recipe, st State, text string, only int, mod
 						viol("REF-CANDIDATE wrong-scope", fmt.Sprintf("candidate %q has no declaration (nor nested one) of the expected scope %q", c.Label, wantScope))
 					}
 				}
+				// expected type: some declaration of that address (or one nested below it) must fit
+				if wantType != cty.NilType && wantType != cty.DynamicPseudoType && form == "top" {
+					fits := false
+					for _, t := range append(append([]reference.Target{}, abs...), loc...) {
+						if targetOrNestedFitsType(t, wantType, 0) {
+							fits = true
+						}
+					}
+					if !fits {
+						viol("REF-CANDIDATE type-does-not-fit", fmt.Sprintf("candidate %q: neither its declarations nor anything nested below them converts to the expected %s", c.Label, wantType.FriendlyName()))
+					}
+				}
 				if typedPrefix != "" && !strings.HasPrefix(c.Label, typedPrefix) {
 					viol("REF-CANDIDATE ignores-typed-prefix", fmt.Sprintf("candidate %q does not start with the typed text %q", c.Label, typedPrefix))
 				}
@@ -386,6 +398,12 @@ func (p c08) checkText(unit int, rc Recipe, st State, text string, only int, mod
 				if decl == nil {
 					continue
 				}
+				// (an address built from a label that is no identifier - "l&<2>" - cannot be written
+				// as a traversal at all: don't-care)
+				if _, diags := hclsyntax.ParseTraversalAbs([]byte(c.Label), "", hcl.InitialPos); diags.HasErrors() {
+					rep.Count("candidates_not_writable_as_traversal", 1)
+					continue
+				}
 				newText, ok := applySnippet(text, c.TextEdit)
 				if !ok {
 					break
@@ -443,6 +461,23 @@ func targetOrNestedHasScope(t reference.Target, s lang.ScopeId) bool {
 	for _, n := range t.NestedTargets {
 		if targetOrNestedHasScope(n, s) {
 			return true
+		}
+	}
+	return false
+}
+
+// targetOrNestedFitsType: a type-less declaration says nothing about its type (fits); a
+// dynamically typed one fits anything; otherwise the declared type must convert to the
+// expected one - or some declaration nested below must fit.
+func targetOrNestedFitsType(t reference.Target, want cty.Type, depth int) bool {
+	if t.Type == cty.NilType || t.Type == cty.DynamicPseudoType || t.Type.Equals(want) || convert.GetConversionUnsafe(t.Type, want) != nil {
+		return true
+	}
+	if depth < 6 {
+		for _, n := range t.NestedTargets {
+			if targetOrNestedFitsType(n, want, depth+1) {
+				return true
+			}
 		}
 	}
 	return false
